@@ -92,6 +92,18 @@ def cases(draw):
             handles += 1
         elif handles:
             steps.append(["call", draw(st.integers(0, handles - 1)), [draw(st.integers(-4, 4)) / 2.0 for _ in range(4)]])
+    # episodes that put an update BETWEEN creating something and using it (the shape the property is about)
+    for _ in range(draw(st.integers(0, 2))):
+        sl = draw(st.sampled_from(pslots))
+        val = draw(st.sampled_from(SLOTS[sl][1]))
+        if draw(st.booleans()):
+            steps += [["compile", draw(st.sampled_from(KINDS)), draw(st.integers(0, 1))], ["set", sl, val],
+                      ["call", handles, [draw(st.integers(-4, 4)) / 2.0 for _ in range(4)]]]
+            handles += 1
+        elif nsolve <= 2:
+            m = draw(st.sampled_from(["SLSQP", "auto", "trust-constr"]))
+            steps += [["solve", m], ["set", sl, val], ["solve", m]]
+            nsolve += 2
     return {"pslots": pslots, "as_vec": as_vec, "constraints": use_constraints, "steps": steps,
             "config": draw(st.sampled_from(["default", "default", "default", "lowthr"]))}
 
